@@ -275,6 +275,11 @@ def serde_corpus(rng, tier):
               "a2616101616102", "82a201020103a2616101616102", "a4616101616201616103616204", "bf616101616102ff", "a2f97e0001f97e0002", "a2fa7fc0000001fa7fc0000002"]:
         ops.append(f"sde any {x}")
         ops.append(f"sde ignored {x}")
+    # a selective visitor behind deserialize_any: what it refuses is refused with the same error class everywhere
+    for t in trees[:150 if q else 3000]:
+        ops.append(f"sde picky {W.enc(t).hex()}")
+    for x in ["05", "f5", "f4", "f6", "f7", "6161", "20", "3903e7", "80", "a0", "4101", "fa3f800000", "fb3ff0000000000000", "c105", "1bffffffffffffffff", "9fff", "8205f6", "82f505"]:
+        ops.append(f"sde picky {x}"); ops.append(f"sde picky2 {x}")
     for v in (0, 9, 10, 255, 65536, 2**64 - 1):
         ops.append(f"sser shown {v}")
     # IgnoredAny (what a derived struct uses for unknown fields): skips one item whatever it is, in every configuration
@@ -306,7 +311,7 @@ def streams(rng, tier):
         noalloc = "alloc" not in CUR[0] and "std" not in CUR[0]
         hx = w[2] if len(w) > 2 else ""
         has = lambda *bs: any(hx[i:i + 2] in bs for i in range(0, len(hx), 2))
-        if w[1] == "any":
+        if w[1] in ("any", "picky", "picky2"):
             # documented: without alloc the bridge refuses indefinite-length strings (type error at that item)
             if noalloc and has("5f", "7f") and impl.startswith("err type"):
                 return "ok"
